@@ -76,6 +76,14 @@ def float_class(t):
     return 'ok'
 
 
+def float_bits(t):
+    """the correctly rounded double a numeral of class 'ok' denotes, as 16 hex digits"""
+    import struct
+    s = t.decode()
+    f = float.fromhex(s) if re.match(r'[+-]?0[xX]', s) else float(s)
+    return struct.pack('>d', f).hex()
+
+
 def bool_value(t):
     l = t.lower()
     if l in (b'true', b'yes', b'on'):
@@ -139,11 +147,16 @@ BOUNDARY_INT = [b'9223372036854775807', b'9223372036854775808', b'-9223372036854
                 b'0777777777777777777777', b'01000000000000000000000', b'0b' + b'1' * 63, b'0b' + b'1' * 64,
                 b'-0x8000000000000000', b'-0x8000000000000001', b'99999999999999999999999999', b'0x-5', b'0x0x10',
                 b'0x+5', b'0b-1', b'0-5', b'00x10', b'0b0b1', b'+-1', b'-+1', b'--1', b'0X1f', b'-0X1f', b'1_0', b'1 ', b' 1',
+                b'0' * 70 + b'7', b'0x' + b'0' * 70 + b'1f', b'0b' + b'0' * 100 + b'11', b'1' + b'0' * 70, b'+' + b'0' * 64 + b'12', b'0' * 63 + b'9x',
                 b'0x1g', b'0b12', b'12abc', b'\xd9\xa1', b'0x', b'0b', b'', b'+', b'-', b'0', b'00', b'-0', b'+0', b'08', b'09', b'-08']
 BOUNDARY_FLT = [b'1.7976931348623157e308', b'1.7976931348623159e308', b'1e308', b'1e309', b'-1e309', b'1e999', b'0x1p1023',
                 b'0x1p1024', b'0x1.fffffffffffffp1023', b'1e-400', b'0.0', b'-0.0', b'.', b'e5', b'1e', b'1e+', b'0x', b'0x.',
                 b'0x.p1', b'1.5.2', b'1.5e5e5', b'+.5', b'-.5e-1', b'1.', b'.1', b'1e5', b'1E5', b'0x1P4', b'1p4', b'0x1e5',
-                b'1..', b'++1', b'1-', b'', b'5', b'005', b'0x10', b'1e0005']
+                b'1..', b'++1', b'1-', b'', b'5', b'005', b'0x10', b'1e0005',
+                # numerals longer than any fixed buffer: the whole token counts
+                b'1' + b'0' * 66 + b'e-66', b'0' * 70 + b'2.5', b'1.5' + b'0' * 70, b'1.5' + b'0' * 62 + b'xyz', b'1.' + b'0' * 70 + b'e999',
+                b'0.' + b'0' * 80 + b'1e81', b'-' + b'0' * 127 + b'.5', b'0x1.' + b'0' * 100 + b'p1', b'1' + b'0' * 300 + b'e-300',
+                b'2.5' + b'0' * 60 + b'e', b'1e' + b'0' * 90 + b'2', b'9' * 400, b'0.' + b'9' * 400]
 BOOL_TOKS = []
 for w in (b'true', b'false', b'yes', b'no', b'on', b'off'):
     for mask in range(1 << len(w)):
@@ -211,6 +224,8 @@ def oracle(scn, il):
                 out.append(('float-accepts:' + c, 'token %r accepted as float (%s) via %s; reference class %s' % (t, vals, via, c)))
             elif not ok and c == 'ok':
                 out.append(('float-rejects', 'float numeral %r rejected via %s: %s' % (t, via, res[:200])))
+            elif ok and vals != [float_bits(t)]:
+                out.append(('float-value', 'float numeral %r stored as %s, denotes %s (via %s)' % (t, vals, float_bits(t), via)))
             elif not ok and ('diags=[]' in res or (via == 'setmulti' and vals != ['3ff4000000000000'])):
                 out.append(('float-silent', 'rejected token %r: diagnostics/value wrong: %s | %s' % (t, res[:200], vals)))
         else:
